@@ -23,7 +23,7 @@ EXIT_OK, EXIT_VIOLATION, EXIT_HARNESS = 0, 1, 3
 class Obligation:
     def __init__(self, name, fn, *, code=(), bounds='', native='auto', claim_doc='',
                  max_paths=20000, query_timeout_ms=10000, wall_s=150, hard_s=None,
-                 concretize_cap=64, tiers=('quick', 'thorough'), stop_on_violation=True, oneshot=True,
+                 concretize_cap=64, tiers=('quick', 'thorough'), stop_on_violation=True, oneshot='auto',
                  shims=(), outside='', min_paths=1, kind='symbolic', shards=1):
         self.name = name
         self.fn = fn
